@@ -381,3 +381,40 @@ def comment_order(ctx, rid, core, G):
                         ok = len(lead) == 1 and len(node) == 1 and len(trail) == 1 and lead[0] < node[0] < trail[0]
                         ctx.inst(rid, "%s#members(%s)[%d]" % (name.replace(CORE, ""), ".".join(it[1]), k), ok, "emission order inside the member loop: leading@%s node@%s trailing@%s" % (lead, node, trail), H.loc(f["body"]))
                         k += 1
+
+
+def scope_threading(ctx, rid, core):
+    """the inlining printer (the one that carries the captured scope) prints every expression child with a scope-carrying printer:
+    a child printed by the scope-less printer keeps its captured names unsubstituted, i.e. unbound in the emitted function"""
+    ctx.rule(rid, "in the inlining printer every expression child is printed by a scope-carrying printer, so captured values are substituted at every position (a child handed to the scope-less printer keeps unbound names)", floor=10)
+    I_, pf = interp(core)
+    SCOPE_TY = "IndexMap<alloc::string::String, blots_core::values::SerializableValue"
+
+    def carries_scope(fname):
+        f = pf.get(fname) or core.hir.get(fname)
+        return f is not None and any(SCOPE_TY in t for t in f.get("inputs", []))
+
+    def prints_expr(fname):
+        f = pf.get(fname) or core.hir.get(fname)
+        return f is not None and bool(f.get("inputs")) and "ast::Spanned<blots_core::ast::Expr>" in f["inputs"][0]
+
+    n = 0
+    for name, variant, alts, ren, loc in arms_of(core, I_, pf):
+        if not carries_scope(name):
+            continue
+        bad = set()
+        kids = 0
+        for alt in alts:
+            for x in Y.flatten(alt):
+                if x[0] == "child" and x[2]:
+                    callee = x[2] if x[2] in pf or x[2] in core.hir else next((k for k in pf if k.endswith("::" + x[2])), None)
+                    if callee is None or not prints_expr(callee):
+                        continue
+                    kids += 1
+                    if not carries_scope(callee):
+                        bad.add("%s via %s" % (".".join(map(str, x[1])), callee.replace(CORE, "")))
+        n += 1
+        ctx.inst(rid, "%s[%s]" % (name.replace(CORE, ""), variant), not bad,
+                 "%d expression child emission(s); printed without the scope: %s" % (kids, sorted(bad) or "none"), loc)
+    if n == 0:
+        ctx.inst(rid, "inliner", None, "no printer carrying the captured scope was found", None)
